@@ -159,7 +159,9 @@ func VerifC16_SystemEntities() {
 				c = ctx.GetSystemContext()
 			}
 			var err error
-			g2[op.slot]++
+			if op.kind != 2 {
+				g2[op.slot]++
+			}
 			ent := &vSysEnt{BaseExtEntity: BaseExtEntity{Id: vIds[op.slot], IsSystem: op.flag, Migrate: op.migrate}, Name: "n" + string(rune('0'+g2[op.slot])) + vIds[op.slot]}
 			switch op.kind {
 			case 0:
